@@ -49,6 +49,7 @@ STRENGTHENED = {
     "C04-8": "gen: writes that put back exactly the committed bytes (toggle/restore inside a transaction); C04 sequential sub-check (map model) next to the concurrent one",
     "C12-7": "C12 component sub-check: fat and thin files, a low CompactionRatio and MaxMemTables above the number of level-0 files, so that the size-ratio selection runs",
     "C20-8": "C20: sub-check for the Manifest type (NewManifest / Save / LoadManifest / UpdateConfig), which the engine does not use and the check had not exercised",
+    "C03-8": "gen: one key longer than a physical log record (32756 / 32769 / 40000 / 65000 bytes) in the 'huge' key shape - the embedded API has no key limit of its own; C09 caught it already",
     "C13-4": "C13: real Replica state machine with injected transient apply failures (error state -> recovery -> new stream)",
     "C15-4": "C15: primary with a pre-history (older log files in the directory) so that the ack path's retention pass has work to do",
 }
